@@ -114,7 +114,8 @@ def configure(cfg):
     # duplicates, and valid mixed-length lists (branch / extension / leaf shaped and unusual ones)
     XLISTS = [[(0,), (1, 2), (1, 2, 0)], [(0,), (1, 2), (1, 2, 0), (2, 2, 2, 2)], [(1,), (1,)], [(0,), (0, 1)], [(0,), (1, 2), (2, 0, 1)],
               [(0, 1), (0, 1, 2, 15)], [(15,), (2, 1), (2, 1, 1, 1), (0, 0, 0)], [(0,), (1,), (2,), (15,)], [(1, 2, 0), (1, 2), (0,)],
-              [(0, 0, 0, 0), (1, 1, 1), (2, 2), (15,)], [()], [(), (1,)], [(1, 15)]]
+              [(0, 0, 0, 0), (1, 1, 1), (2, 2), (15,)], [()], [(), (1,)], [(1, 15)],
+              [(1,), (2, 15), (2, 15)], [(0, 1), (0, 1), (2,)], [(15,), (15, 0)], [(2,), (0, 0), (15, 1, 1)]]
     QUERIES = universe(2) + [(0, 1, 2), (1, 15, 15), (15, 15, 15), (0, 0, 0)]
     F0 = m_explore(frozenset({()}), (), SEGS)
     try:
